@@ -36,6 +36,8 @@ class GenF:
             if self.n >= self.max_events:
                 break
             if depth < 3 and self.r.random() < 0.75:
+                if out[-1][0] != "ev":          # consecutive forks/loops are separated by an event
+                    out.append(self.ev())
                 if self.r.random() < 0.75:
                     out.append(self.fork(depth, inloop, loopdepth))
                 else:
@@ -58,7 +60,7 @@ class GenF:
 
     def loopbody(self, depth, loopdepth):
         body = self.seq(depth + 1, True, loopdepth + 1)
-        if self.r.random() < 0.4:
+        if depth + 1 < 3 and self.r.random() < 0.4:
             br = [[self.ev(), ("break",)], [self.ev()]]
             if loopdepth == 0 and self.r.random() < 0.3:
                 br.insert(0, [self.ev(), ("break",)])
